@@ -310,10 +310,11 @@ impl<'a> Program<'a> {
         Ok(())
     }
 
-    pub fn update_time(&mut self, ns: u64) {
+    pub fn update_time(&mut self, ns: u64) -> Result<(), Error> {
         // println!("time advance: {} ns", ns);
 
-        self.now += ns;
+        self.now = self.now.checked_add(ns).ok_or(Error::RuntimeError)?;
+        Ok(())
     }
 
     pub fn add_expr(&mut self, expr: Expr) -> Result<(), Error> {
@@ -321,7 +322,7 @@ impl<'a> Program<'a> {
         match val {
             Val::Nil => {}
             Val::Pkt(mut ptr) => {
-                self.update_time(ptr.bit_time());
+                self.update_time(ptr.bit_time())?;
 
                 /* XXX: cloning the packet here is wasteful */
                 if let Some(ref mut wr) = self.wr {
@@ -333,7 +334,7 @@ impl<'a> Program<'a> {
             }
             Val::PktGen(mut gen) => {
                 for pkt in gen.iter() {
-                    self.update_time(pkt.bit_time());
+                    self.update_time(pkt.bit_time())?;
                 }
 
                 /* XXX: cloning the packets here is wasteful */
@@ -346,7 +347,7 @@ impl<'a> Program<'a> {
                     }
                 };
             }
-            Val::TimeJump(ns) => self.update_time(ns),
+            Val::TimeJump(ns) => self.update_time(ns)?,
             _ => {
                 if let Some(ref mut func) = self.warning {
                     (func)(self.loc, &format!("discarded value {:?}", val));
